@@ -56,6 +56,11 @@ type Scenario struct {
 	Faults      []FaultSpec       `json:"faults,omitempty"`
 	// PAN-OS: "first" = only the first vsys lacks the marker, the others carry it.
 	MarkerVsys string `json:"marker_vsys,omitempty"`
+	// PAN-OS: number of rule entries of the candidate configuration shown
+	// with the attributes of an uncommitted change, and whose they are
+	// ("" = the login user).
+	Dirty      int    `json:"dirty,omitempty"`
+	DirtyAdmin string `json:"dirty_admin,omitempty"`
 	// NSX: objects on the manager whose ids lack the Netspoc prefix (raw JSON).
 	ForeignGroups   []string            `json:"foreign_groups,omitempty"`
 	ForeignServices []string            `json:"foreign_services,omitempty"`
@@ -302,7 +307,7 @@ func Execute(sc *Scenario) *Outcome {
 			faults = append(faults, httpdev.Fault{Pos: f.Pos, Kind: f.Kind})
 		}
 		pan = httpdev.NewPanServer(st, httpdev.PanOpts{User: "admin", Password: e.Password, Key: sc.APIKey,
-			Members: sc.Members, Faults: faults, CommitPend: 1})
+			Members: sc.Members, Faults: faults, CommitPend: 1, Dirty: sc.Dirty, DirtyAdmin: sc.DirtyAdmin})
 		defer pan.Close()
 		simulate = pan.URL()
 		o.HashBefore = pan.StateHash()
